@@ -327,6 +327,13 @@ def driveLocks (toks : List String) : String :=
     else if Locks.blockingChannelPoints.contains point then "R lock-held-at-blocking-channel-operation"
     else if !Locks.heldAllowedAt point (held.splitOn ",") then "R lock-held-where-the-model-holds-none"
     else "R ok"
+  | ["cover", observed] =>
+    -- every nested acquisition of the table must have been observed (the workload exercises every program)
+    let seen := observed.splitOn ","
+    let name (c : Locks.Cls) : String := (Locks.Cls.names.find? (fun p => p.2 == c)).map (·.1) |>.getD "?"
+    let missing := Locks.programEdges.filter (fun e => !seen.contains (name e.1 ++ ">" ++ name e.2))
+    if missing.isEmpty then "R ok"
+    else "R nesting-of-the-model-not-observed " ++ ",".intercalate (missing.map (fun e => name e.1 ++ ">" ++ name e.2))
   | _ => "R bad-locks-line"
 
 -- ---------- Layer B, lines `BC <cfg> clients=n` and `B <action> [oracle]` ----------
